@@ -36,6 +36,17 @@ def boundary_behaviours(rng, L, vs):
         used = sorted({v for co, _ in L for v in co})
         b.pop(rng.choice(used))                 # a constrained variable left unassigned
         out.append(b)
+    if out and len(L) > 1 and rng.random() < 0.4:
+        # a constrained variable left unassigned WHILE another row, all of whose variables have values, is violated: still ValueError
+        for co, c in L:
+            others = sorted({v for co2, _ in L for v in co2} - set(co))
+            if others:
+                b = {v: 0.0 for v in vs}
+                v0 = sorted(co)[0]
+                b[v0] = float((F(c) + 5) / F(co[v0]))          # breaks this row by 5
+                b.pop(others[0])
+                out.append(b)
+                break
     return out
 
 
